@@ -1,0 +1,24 @@
+//go:build verif
+// +build verif
+
+package bal_gslb
+
+import "github.com/bfenetworks/bfe/bfe_balance/bal_slb"
+
+// VerifC09Sub is a read-only view of one sub-cluster for the verification harness (build tag verif).
+type VerifC09Sub struct {
+	Name     string
+	Weight   int
+	Backends *bal_slb.BalanceRR
+}
+
+// VerifC09Subs lists the sub-clusters in list order.
+func (bal *BalanceGslb) VerifC09Subs() []VerifC09Sub {
+	bal.lock.Lock()
+	defer bal.lock.Unlock()
+	out := make([]VerifC09Sub, 0, len(bal.subClusters))
+	for _, s := range bal.subClusters {
+		out = append(out, VerifC09Sub{Name: s.Name, Weight: s.weight, Backends: s.backends})
+	}
+	return out
+}
